@@ -80,7 +80,9 @@ Violated(e) ==
              RowRules("sk", rf, ToSet(e.sk_doc), SKRowOf(c))
         \cup Rule("sk-row-id", e.sk_row_id = skid)
         \cup Rule("sk-row-filed-under-its-created", e.sk_row_created = e.sk_created)
-        \cup Rule("sk-is-ct-tag-nonce", e.sk_blob_len = BlobLen(KeyLen))
+        \* the system key envelope is what the KMS returned: ct|tag|nonce under the master key plus the KMS's own trailer (kms_frame
+        \* bytes, 0..2, so that the stored base64 text goes through all its padding classes)
+        \cup Rule("sk-is-ct-tag-nonce", e.kms_frame \in 0..2 /\ e.sk_blob_len = BlobLen(KeyLen) + e.kms_frame)
         \* the walk down the hierarchy with AES-256-GCM under the documented cut
         \cup Rule("gcm-open-system-key-under-master-key", e.open_sk)
         \cup Rule("gcm-open-intermediate-key-under-system-key", e.open_sk => e.open_ik)
